@@ -267,7 +267,7 @@ theorem lexStr_of_lexesAs {s : Str} {ts : List Tok} {k : Nat} (h : LexesAs s ts 
 /-- the floating literal `<digits of n>.0` -/
 theorem lexesAs_dot0 (n : Nat) : LexesAs (natStr n ++ ['.', '0']) [.flt (10 * n) (-1) .none] 1 := by
   intro g rest hr
-  have h := lexNum_frac (natStr_allDigits n) (fp := ['0']) (by intro c hc; simp at hc; subst hc; decide) hr
+  have h := lexNum_frac (natStr_allDigits n) (fp := ['0']) (by intro c hc; simp at hc; subst hc; decide) (by simp) hr
   have e : digitsVal (natStr n ++ ['0']) = 10 * n := by
     unfold digitsVal
     rw [Nat.ofDigitChars_append]
